@@ -1761,6 +1761,7 @@ msa_remove_seqs_with_ambiguities(ESL_MSA *msa, int max_nambig, ESL_MSA **ret_new
     esl_sq_Reuse(sq);
   }    
 
+  if(esl_vec_ISum(useme, msa->nseq) == 0) esl_fatal("No sequences have few enough ambiguous residues.");
   if((status = esl_msa_SequenceSubset(msa, useme, &new_msa)) != eslOK) esl_fatal("esl_msa_SequenceSubset() had a problem.");
   free(useme);
   esl_sq_Destroy(sq);
